@@ -34,7 +34,7 @@ KINDS = ["p2pkh", "p2pkh-uncompressed", "p2sh-ms", "p2wpkh", "p2sh-p2wpkh", "p2w
          "p2tr-script-p2pk", "p2tr-ms-single", "p2tr-ms-multi", "p2tr-key-annex", "p2tr-script-p2pk-annex"]
 
 MUTATION_CLASSES = [
-    "drop-sig", "blank-sig", "foreign-key-sig", "junk-der-sig", "reorder-sigs", "duplicate-sig", "flip-sighash-byte",
+    "drop-sig", "blank-sig", "foreign-key-sig", "junk-der-sig", "non-signature-bytes", "reorder-sigs", "duplicate-sig", "flip-sighash-byte",
     "spent-amount", "output-amount", "output-script", "add-output", "sequence", "other-sequence", "locktime", "outpoint", "version",
     "wrong-pubkey", "wrong-script", "foreign-script-with-its-sigs", "control-block-byte", "control-block-length", "leaf-script-byte",
     "truncate-witness", "empty-auth", "annex-only", "annex-plus-junk", "sigfree-scriptsig-extras", "scriptsig-on-native-witness",
@@ -447,6 +447,14 @@ def mutations(rng, model, spent, index, meta):
         m, s = fresh()
         junk = (ec.der(rng.randrange(1, ec.N), rng.randrange(1, ec.N // 2)) + b"\x01") if not taproot else rng.randbytes(64)
         put_item(m, index, sl, junk); yield "junk-der-sig", m, s  # noqa: E702
+        # bytes that are not even DER (or not 64/65 bytes for schnorr): in one slot, and in every slot
+        def nonsig():
+            return rng.choice([b"\x01\x01", rng.randbytes(9), b"\x30\x06\x02\x01\x01", b"\x00", rng.randbytes(40), b"\x30" + rng.randbytes(70) + b"\x01"])
+        m, s = fresh(); put_item(m, index, sl, nonsig()); yield "non-signature-bytes", m, s  # noqa: E702
+        m, s = fresh()
+        for sl2 in slots:
+            put_item(m, index, sl2, nonsig())
+        yield "non-signature-bytes", m, s
         m, s = fresh()
         blob = bytes(get_item(m, index, sl))
         if taproot:
